@@ -169,6 +169,7 @@ void Executor::check_after_optimize(Obj& o, const Op& op, int st, bool flag_was_
 
   // ---------------- verdicts (C01/C02 real, C03 rational)
   bool complete = !anyArmed && t.bug_mask == 0 && !t.cap_hit;
+  if (o.untrusted_model) { count("untrusted_model_not_judged"); return; }
   if (is_final(st) || complete) {
     if (rational) { if (opt_.want("C03") && exact_tols) check_verdict_rational(o, st, complete && !guard_ref); }
     else if (opt_.want("C01") || opt_.want("C02") || opt_.want("C16") || opt_.want("C09") || opt_.want("C06")) { std::vector<std::string> also; if (o.stopped_since_change) also.push_back("C16"); if (o.modified_since_solve && o.optimize_calls > 1) also.push_back("C06"); if (s.peekIsRealLPScaled() || (s.getInt(P::i("scaler")) != 0)) also.push_back("C09");
